@@ -66,8 +66,36 @@ def attrNoFrame (a : Nat) : Bool := a &&& bitNOFRAME != 0
 
 /-! ### The assembler's rule -/
 
-/-- `autoffset := int32(p.To.Offset); if autoffset < 0 { autoffset = 0 }` -/
-def autoffset (frame : Int) : Int := if frame < 0 then 0 else frame
+/-- Go's `int32(x)` conversion of a 64-bit integer: the low 32 bits read as a
+two's-complement number.  The frame size of a TEXT line travels through the
+assembler as `p.To.Offset` (int64) and is truncated at this point. -/
+def wrap32 (x : Int) : Int := (x + 2147483648) % 4294967296 - 2147483648
+
+/-- The largest frame the assembler handles without the truncation (or its own
+`spadj` overflow check: frames within 16 bytes of 2^31 make it fail loudly)
+changing the meaning. -/
+def frameLimit : Int := 2147483648
+
+/-- `autoffset := int32(p.To.Offset); if autoffset < 0 { autoffset = 0 }`
+(cmd/internal/obj/x86/obj6.go, preprocess): the frame the assembler really
+allocates for a declared `$frame`.  A declared frame of 2^31 … 2^32-1 reads as a
+negative number and becomes 0; 2^32+8 becomes 8. -/
+def autoffset (frame : Int) : Int := if wrap32 frame < 0 then 0 else wrap32 frame
+
+/-! Basic facts about the truncation (used by Props/C15 and Props/C16). -/
+
+/-- Below the int32 limit the assembler allocates the declared frame. -/
+theorem autoffset_of_lt (frame : Int) (h0 : 0 ≤ frame) (h : frame < frameLimit) : autoffset frame = frame := by
+  unfold frameLimit at h
+  have hw : wrap32 frame = frame := by unfold wrap32; omega
+  unfold autoffset
+  rw [hw]; split <;> omega
+
+/-- What the truncation does in general: the allocated frame is the declared
+one reduced modulo 2^32, or nothing when that reads as a negative int32. -/
+theorem autoffset_range (frame : Int) : 0 ≤ autoffset frame ∧ autoffset frame < frameLimit := by
+  unfold autoffset wrap32 frameLimit
+  split <;> omega
 
 /-- The rule of the installed assembler (go1.21 and later):
 `bpsize != 0` iff `!NoFrame && !(autoffset == 0 && !hasCall)`.  The NOSPLIT
